@@ -33,6 +33,7 @@ Proved here
 import Gossamer.Lib.C08SimStep
 import Gossamer.Lib.C08Reach
 import Gossamer.Lib.C08Transparent
+import Gossamer.Lib.C08HostSim
 namespace Gossamer.C08
 open Gossamer
 
@@ -164,6 +165,38 @@ theorem safeRunB_sound (Hc Hm : Entries → Bytes) (D : Dumper Logical) (CK : By
     simp only [safeRunB, Bool.and_eq_true, decide_eq_true_eq] at h
     exact ⟨h.1, ih _ h.2⟩
 
+/-! ### host level -/
+
+/-- Host-level refinement (corollary of the simulation behind `C08_refines_partial`): for every
+    history of storage host-function calls whose storage steps are in the fragment, the bytes the
+    host functions leave in guest memory / their u32 results, computed from the model of `TrieState`
+    over a correct trie, are exactly those computed from the specification.  Covered: set, get,
+    exists, read, clear, clear_prefix v1/v2, next_key, root v1/v2, start / commit / rollback
+    transaction, child set, get, exists, clear, clear_prefix v1/v2, next_key, storage_kill v1/v2
+    (not kill_v3 and child root: `HOp.lifted`, `StepOK`). -/
+theorem C08_host_refines_partial (Hc Hm : Entries → Bytes) (D : Dumper Logical) (CK : Bytes → Bool)
+    (hs : List HOp)
+    (hsafe : HostSafe (tsMach (idealBackend Hc Hm) D Diff.sortedOrder) (StepOK CK) t0 hs) :
+    (hostRun (tsMach (idealBackend Hc Hm) D Diff.sortedOrder) t0 hs).2 =
+      (hostRun (specMach Hc Hm) s0 hs).2 :=
+  host_refines Hc Hm D CK hs t0 s0 (sim_init CK) hsafe
+
+/-- the result encodings are decodable: the guest recovers exactly the value that was encoded -/
+theorem C08_host_roundtrip (v : Option Bytes) (n : Nat) (all : Bool)
+    (hv : ∀ b, v = some b → b.length < 256 ^ 67) (hn : n < 4294967296) :
+    decOptVec (optVec v) = some v ∧ decKillEnum (killEnum n all) = some (n, all) ∧
+      decOptVec (optVec (some (killEnum n all))) = some (some (killEnum n all)) := by
+  refine ⟨decOptVec_optVec v hv, decKillEnum_killEnum n all hn, decOptVec_optVec _ ?_⟩
+  intro b hb
+  cases hb
+  simp [killEnum, length_leBytes]
+
+/-- a host-level history in the fragment -/
+def demoHost : List HOp :=
+  [HOp.put [1] [2], HOp.start, HOp.get [1], HOp.read [1] 0 4, HOp.has [1], HOp.cput [0x4b, 1] [1] [3],
+   HOp.cclrl [0x4b, 1] [1] (some 1), HOp.clr [1], HOp.clrl [1] none, HOp.next [], HOp.cput [0x4b, 1] [2] [3], HOp.killl2 [0x4b, 1] none,
+   HOp.root, HOp.chas [0x4b, 1] [1]]
+
 /-! ### outside the fragment the code deviates (one witness per known finding) -/
 
 /-- root function used in the witnesses -/
@@ -173,6 +206,30 @@ def D0 : Dumper Logical := ⟨fun _ => []⟩
 
 example : SafeRun H0 H0 D0 (fun k => k.head? == some 0x4b) t0 demoOps :=
   safeRunB_sound _ _ _ _ _ _ (by decide)
+
+def hostSafeB (CK : Bytes → Bool) : TS Logical → List HOp → Bool
+  | _, [] => true
+  | t, h :: r =>
+    h.lifted && (match h.op with | some op => decide (StepOK CK t op) | none => true) &&
+      hostSafeB CK (hostStep (tsMach (idealBackend H0 H0) D0 Diff.sortedOrder) t h).1 r
+
+theorem hostSafeB_sound (CK : Bytes → Bool) (hs : List HOp) :
+    ∀ t, hostSafeB CK t hs = true →
+      HostSafe (tsMach (idealBackend H0 H0) D0 Diff.sortedOrder) (StepOK CK) t hs := by
+  induction hs with
+  | nil => intro _ _; trivial
+  | cons h r ih =>
+    intro t hb
+    simp only [hostSafeB, Bool.and_eq_true] at hb
+    refine ⟨hb.1.1, ?_, ih _ hb.2⟩
+    intro op hop
+    have := hb.1.2
+    rw [hop] at this
+    simpa using this
+
+example : HostSafe (tsMach (idealBackend H0 H0) D0 Diff.sortedOrder)
+    (StepOK (fun k => k.head? == some 0x4b)) t0 demoHost :=
+  hostSafeB_sound _ _ _ (by decide)
 
 def valOf : Out → Option (Option Bytes)
   | .val v => some v
